@@ -12,9 +12,9 @@ PROP = "C12"
 HEADER = "From Verif Require Import Model.Driver Judge.J12.\nOpen Scope list_scope. Open Scope N_scope.\n"
 
 FAULTS = ["none", "bad_schema", "bad_query", "gen_fail", "gen_fail_models", "missing_path", "dir_entry", "empty_queries", "syntax_error",
-          "bad_query_first_file", "query_syntax_first_file", "bad_schema_first_file"]
+          "bad_query_first_file", "query_syntax_first_file", "bad_schema_first_file", "bad_schema_if_exists"]
 OUTCOME = {"none": 0, "bad_schema": 1, "bad_query": 1, "gen_fail": 2, "gen_fail_models": 2, "missing_path": 1, "dir_entry": 1, "empty_queries": 1, "syntax_error": 1,
-           "bad_query_first_file": 1, "query_syntax_first_file": 1, "bad_schema_first_file": 1}
+           "bad_query_first_file": 1, "query_syntax_first_file": 1, "bad_schema_first_file": 1, "bad_schema_if_exists": 1}
 CONFIG_FAULTS = ["ok", "ok", "ok", "ok", "no_version", "bad_json", "unknown_field", "no_packages", "both_files", "missing"]
 
 
@@ -28,6 +28,11 @@ def make_package(i, fault, lang="go", engine="postgresql"):
     pkg = {"path": "out/" + d, "name": "db%d" % i, "engine": engine, "schema": d + "/schema", "queries": d + "/queries"}
     if fault == "bad_schema":
         schema += "ALTER TABLE nosuch ADD COLUMN a int;\n"
+    if fault == "bad_schema_if_exists" and engine == "postgresql":
+        # IF EXISTS covers the TABLE, not the column: the table exists, the column does not
+        schema += "ALTER TABLE IF EXISTS t%d DROP COLUMN no_such_column;\n" % i
+    elif fault == "bad_schema_if_exists":
+        schema += "ALTER TABLE t%d DROP COLUMN no_such_column;\n" % i
     if fault == "syntax_error":
         schema += "CREATE TABLE (;\n"
     if fault == "bad_query":
@@ -153,6 +158,76 @@ def run_binary(case):
     return res
 
 
+def run_sequences(rep, rng, tier):
+    """`sqlc generate` run again and again over ONE output tree while the inputs change (queries and columns come and go, a
+    fault appears and is repaired): after every successful run the files of every output directory are byte for byte those
+    of a run of the same inputs into an empty tree; after a failing run the tree is what it was."""
+    def project(step):
+        cols = ["id int PRIMARY KEY", "name text"] + (["bio text NOT NULL", "born timestamptz"] if step["wide"] else [])
+        schema = "CREATE TABLE t (%s);\n" % ", ".join(cols)
+        qs = ["-- name: Get :one\nSELECT * FROM t WHERE id = $1;\n"]
+        if step["many"]:
+            qs += ["-- name: List :many\nSELECT id, name FROM t ORDER BY name;\n", "-- name: Del :exec\nDELETE FROM t WHERE id = $1;\n",
+                   "-- name: Rename :one\nUPDATE t SET name = $2 WHERE id = $1 RETURNING *;\n"]
+        if step["bad"]:
+            qs += ["-- name: Bad :one\nSELECT nosuch FROM t;\n"]
+        gen = {"go": {"package": "db", "out": "out/go", "emit_interface": step["iface"]}}
+        if step["kotlin"]:
+            gen["kotlin"] = {"package": "com.example", "out": "out/kt"}
+        cfg = {"version": "2", "sql": [{"engine": "postgresql", "schema": "schema.sql", "queries": "query.sql", "gen": gen}]}
+        return {"sqlc.json": json.dumps(cfg), "schema.sql": schema, "query.sql": "\n".join(qs)}
+
+    def write(d, files):
+        for rel, content in files.items():
+            open(os.path.join(d, rel), "w").write(content)
+
+    def gen_in(d):
+        p_ = subprocess.run([SQLC_BIN, "generate"], cwd=d, stdout=subprocess.PIPE, stderr=subprocess.PIPE, timeout=60, text=True, errors="replace")
+        return p_.returncode, p_.stderr
+
+    outs = lambda snap: {k: v for k, v in snap.items() if k.startswith("out" + os.sep)}
+    for _ in range(12 if tier == "quick" else 150):
+        steps = [{"wide": rng.random() < 0.5, "many": rng.random() < 0.5, "bad": rng.random() < 0.2, "iface": rng.random() < 0.4, "kotlin": rng.random() < 0.4}
+                 for _ in range(rng.randint(2, 4))]
+        steps[0]["wide"], steps[0]["many"] = True, True          # start big, so that later runs shrink files
+        d = tempfile.mkdtemp(prefix="c12seq", dir=os.path.join(BUILD, "tmp"))
+        try:
+            prev = {}
+            for k_, st in enumerate(steps):
+                files = project(st)
+                write(d, files)
+                rc, err = gen_in(d)
+                now = outs(snapshot(d))
+                f = tempfile.mkdtemp(prefix="c12fresh", dir=os.path.join(BUILD, "tmp"))
+                try:
+                    write(f, files)
+                    frc, ferr = gen_in(f)
+                    fresh = outs(snapshot(f))
+                finally:
+                    shutil.rmtree(f, ignore_errors=True)
+                rep.case(("sequence", json.dumps(steps[:k_ + 1], sort_keys=True)), nontrivial=k_ > 0)
+                rep.count("sequence:step-%s" % ("fails" if frc else "ok"))
+                replay = {"steps": steps[:k_ + 1], "rc": rc, "stderr": err[:500]}
+                if (rc == 0) != (frc == 0):
+                    rep.violation("run %d of a sequence over one output tree exits %d, the same inputs in an empty tree exit %d" % (k_ + 1, rc, frc), replay)
+                    break
+                if rc != 0:
+                    if now != prev:
+                        rep.violation("a failing run changed the output tree: %s" % sorted(k for k in set(now) | set(prev) if now.get(k) != prev.get(k)), replay)
+                        break
+                else:
+                    # files of earlier runs that this configuration no longer produces may stay behind; every file it does
+                    # produce must be exactly the fresh one
+                    bad = sorted(k for k in fresh if now.get(k) != fresh[k])
+                    if bad:
+                        rep.violation("after run %d of a sequence over one output tree %s differ(s) from what the same inputs give in an empty tree (stale content)" % (k_ + 1, bad),
+                                      dict(replay, differs=bad))
+                        break
+                prev = now
+        finally:
+            shutil.rmtree(d, ignore_errors=True)
+
+
 def run(tier, seed):
     rep = Report(PROP, tier, seed)
     ok, info = prep(PROP)
@@ -230,9 +305,10 @@ def run(tier, seed):
             rep.violation("correspondence corr:C12:driver broken: the model predicts status %d output %d, the binary exits %d and writes %d files"
                           % (status, has_out, g["rc"], len(g["new"])), replay, no_input=True)
     rep.extra["exhaustive"] = tier != "quick"
+    run_sequences(rep, rng, tier)
     if getattr(rep, "proof_broken", None) and not rep.violations:
         rep.violation("proof obligation no longer checks: " + rep.proof_broken, {"theorem_file": "coq/theories/Props/C12.v", "detail": info}, no_input=True)
     return rep.finish("proof", ob, dis, checker_cmd(PROP),
-                      rule="multi-package configurations (1-4 packages, postgresql/mysql, JSON/YAML config) with every placement of 12 fault kinds (bad schema statement, syntax error, bad query, each also in a file that is not the last of its directory, code-generation failure of the whole package or of models.go alone, missing path, directory-typed entry, empty query set; plus 6 config faults) run through the real `sqlc generate` and `sqlc compile` binaries in scratch directories: exit status, stderr, files created/modified; thorough = all placements for 1-3 packages; non-trivial = a fault or more than one package",
+                      rule="multi-package configurations (1-4 packages, postgresql/mysql, JSON/YAML config) with every placement of 12 fault kinds (bad schema statement, syntax error, bad query, each also in a file that is not the last of its directory, code-generation failure of the whole package or of models.go alone, missing path, directory-typed entry, empty query set; plus 6 config faults) run through the real `sqlc generate` and `sqlc compile` binaries in scratch directories: exit status, stderr, files created/modified; thorough = all placements for 1-3 packages; sequences of 2-4 runs over one output tree while the inputs grow, shrink and break; non-trivial = a fault or more than one package",
                       assumptions=["process exit status and file-system effects are observed on the binary, not proved",
                                    "per-package behaviour is abstracted to ParseFail / GenFail / Good in the loop model"])
